@@ -42,7 +42,7 @@ package mdiff
 //@ pred sameChunk(c *Chunk) := c.LStart == old(c.LStart) && c.RStart == old(c.RStart) && c.LEnd == old(c.LEnd) && c.REnd == old(c.REnd) && c.Edits == old(c.Edits) && c.cl == old(c.cl) && c.cr == old(c.cr)
 //@ pred owns(d *Diff) := (forall j int :: {d.Chunks[j]} 0 <= j && j < len(d.Chunks) ==> len(d.Chunks[j].Edits) > 0 && d.Chunks[j].Edits.base != d.Edits.base)
 //@+     && (forall a int, b int :: {d.Chunks[a], d.Chunks[b]} 0 <= a && a < b && b < len(d.Chunks) ==> d.Chunks[a] != d.Chunks[b] && d.Chunks[a].Edits.base != d.Chunks[b].Edits.base)
-//@ pred ctxOK(c *Chunk, n int) := old(c.LStart) - ite(n > 0, n, 0) <= c.LStart && c.LStart <= old(c.LStart) && old(c.LStart) - c.LStart == old(c.RStart) - c.RStart && old(c.LEnd) <= c.LEnd && c.LEnd <= old(c.LEnd) + ite(n > 0, n, 0) && c.LEnd - old(c.LEnd) == c.REnd - old(c.REnd)
+//@ pred ctxOK(c *Chunk, n int) := old(c.LStart) - ite(n > 1, n - 1, 0) <= c.LStart && c.LStart <= old(c.LStart) && old(c.LStart) - c.LStart == old(c.RStart) - c.RStart && old(c.LEnd) <= c.LEnd && c.LEnd <= old(c.LEnd) + ite(n > 0, n, 0) && c.LEnd - old(c.LEnd) == c.REnd - old(c.REnd)
 //@
 //@ func New
 //@   ensures [C13] diff: result != nil && fresh(result) && result.Left == lhs && result.Right == rhs
